@@ -46,6 +46,14 @@ type c19Case struct {
 	Version  string   `json:"version"`
 	API      string   `json:"api"` // Version | SetCapabilities
 	Perms    bool     `json:"permutations,omitempty"`
+	// Reuse: the same Target and Capability objects are evaluated for
+	// these (comparer, version) pairs one after the other
+	Reuse []c19Step `json:"evaluated_one_after_the_other_on_the_same_objects,omitempty"`
+}
+
+type c19Step struct {
+	Comparer string `json:"comparer"`
+	Version  string `json:"version"`
 }
 
 // ------------------------------------------------------------------ own version orders
@@ -382,6 +390,59 @@ func c19Lib(o *c19Order, caps []c19Cap, version, api string, literal bool) c19Ob
 		}
 	})
 	return ob
+}
+
+// c19Reuse evaluates the steps one after the other on ONE Target with ONE
+// set of Capability objects and compares every outcome with the outcome on
+// freshly built objects: an evaluation must not depend on earlier ones.
+func c19Reuse(r *rt.Result, l *c19Local, cs c19Case) {
+	var t capability.Target
+	ptrs := make([]*capability.Capability, len(cs.Caps))
+	for i, c := range cs.Caps {
+		ptrs[i] = c19Build(c, i, false)
+		t.Capabilities = append(t.Capabilities, ptrs[i])
+	}
+	for si, st := range cs.Reuse {
+		o := c19GetOrder(st.Comparer)
+		if o == nil {
+			return
+		}
+		var ob c19Obs
+		ob.pi = rt.Catch(func() {
+			t.VersionComparer = o.lib
+			var v capability.Version
+			if cs.API == "SetCapabilities" {
+				v = capability.NewDefaultVersion(st.Version)
+				ob.err = t.SetCapabilities(v)
+			} else {
+				v, ob.err = t.Version(st.Version)
+			}
+			if ob.err != nil || v == nil {
+				return
+			}
+			ob.has = make([]bool, len(ptrs))
+			for i, p := range ptrs {
+				ob.has[i] = v.Has(p)
+			}
+		})
+		fresh := c19Lib(o, cs.Caps, st.Version, cs.API, false)
+		r.Eval(1)
+		l.ctr["reuse_evaluations"]++
+		if fresh.pi != nil || fresh.bad != "" {
+			return // reported by the plain case
+		}
+		if ob.pi != nil {
+			r.Violate("panic/"+ob.pi.Frame+"/reuse", fmt.Sprintf("evaluation %d on reused objects panicked: %s", si+1, ob.pi.Value), cs)
+			return
+		}
+		if (ob.err != nil) != (fresh.err != nil) || (ob.err == nil && !c19HasEq(ob.has, fresh.has)) {
+			r.Violate("reuse/outcome-depends-on-earlier-evaluation", fmt.Sprintf("capabilities %s: evaluation %d (comparer %s, version %q) on objects that had been evaluated before (%v) gives %s, the same evaluation on freshly built objects gives %s", c19Describe(cs.Caps), si+1, st.Comparer, st.Version, cs.Reuse[:si], c19OutcomeStr(ob), c19OutcomeStr(fresh)), cs)
+			return
+		}
+		if si > 0 {
+			l.ctr["reuse_same_as_fresh"]++
+		}
+	}
 }
 
 func c19HasEq(a, b []bool) bool {
@@ -895,7 +956,11 @@ func runC19(c *Ctx) {
 			return
 		}
 		l := newC19Local()
-		c19Exec(r, l, cs, false)
+		if len(cs.Reuse) > 0 {
+			c19Reuse(r, l, cs)
+		} else {
+			c19Exec(r, l, cs, false)
+		}
 		l.flush(r)
 		return
 	}
@@ -1040,6 +1105,34 @@ func runC19(c *Ctx) {
 				r.Sample("seeded-"+cs.Comparer, cs)
 			}
 			c19Exec(r, l, cs, false)
+			if i%2 == 0 {
+				// the same objects, evaluated for several versions (and
+				// comparers of the same version syntax) in a row
+				rc := cs
+				rc.Perms = false
+				grid := c19Grid
+				comps := []string{"default-nil", "default-explicit", "reversed"}
+				if cs.Comparer == "int" {
+					grid, comps = c19IntGrid, []string{"int"}
+				}
+				var pool []string
+				for _, cp := range cs.Caps {
+					for _, rg := range cp.Ranges {
+						pool = append(pool, rg.Lo, rg.Hi)
+					}
+				}
+				for n := rnd.Range(2, 5); n > 0; n-- {
+					st := c19Step{Comparer: cs.Comparer, Version: grid[rnd.Intn(len(grid))]}
+					if len(pool) > 0 && rnd.Chance(1, 2) {
+						st.Version = pool[rnd.Intn(len(pool))]
+					}
+					if rnd.Chance(1, 4) {
+						st.Comparer = comps[rnd.Intn(len(comps))]
+					}
+					rc.Reuse = append(rc.Reuse, st)
+				}
+				c19Reuse(r, l, rc)
+			}
 		}
 	})
 }
